@@ -49,7 +49,9 @@ class PrefixPart:
         return None
 
 
-_comment = r'#[^\n\r\f]*'
+# A form feed in a comment is part of the comment (like in the tokenizer), only
+# form feeds at the end of a comment are separate parts.
+_comment = r'#[^\n\r\f]*(?:\f+[^\n\r\f]+)*'
 _backslash = r'\\\r?\n|\\\r'
 _newline = r'\r?\n|\r'
 _form_feed = r'\f'
